@@ -4,6 +4,7 @@ import (
 	"fmt"
 	"go/ast"
 	"go/types"
+	"golang.org/x/tools/go/ssa"
 	"sort"
 	"strings"
 
@@ -103,4 +104,99 @@ func sortedKeys[M ~map[string]V, V any](m M) []string {
 	}
 	sort.Strings(ks)
 	return ks
+}
+
+// errflowExceptions: confirmed, legitimate minority cases (one named construct + reason each).
+// Key: construct without ordinal suffix is NOT accepted — the full construct must match.
+var errflowExceptions = map[string]string{
+	// deferred best-effort cleanup of a read-only plan after the result/err has already been decided;
+	// the plan's Close touches no persistent state (iterators of the same txn, which is discarded/committed by the caller)
+	"db.(*collection).updateWithFilter→internal/planner.(planNode).Close#1": "deferred Close of the selection plan: logged by design (source comment), result already decided; iterators die with the txn",
+	"db.(*collection).deleteWithFilter→internal/planner.(planNode).Close#1": "deferred Close of the selection plan: logged by design, result already decided",
+	"db.(*collection).get→internal/db/fetcher.(Fetcher).Close#1":            "Close on an error exit: the original error is returned (explicit `_ =`)",
+	"db.(*collection).get→internal/db/fetcher.(Fetcher).Close#2":            "Close on an error exit: the original error is returned (explicit `_ =`)",
+	"db.(*collection).get→internal/db/fetcher.(Fetcher).Close#3":            "Close on the not-found exit: the not-found result is returned (explicit `_ =`)",
+	"db.isUpdatingIndexedFields→client.(*Document).GetValue#1":              "GetValue error means 'field not set' (documented in the source comment); both errors are inspected by the switch",
+	"db.isUpdatingIndexedFields→client.(*Document).GetValue#2":              "GetValue error means 'field not set'; inspected by the switch",
+}
+
+// ruleErrFlowCone applies the error-flow rule to every storage-derived error produced inside the
+// call-graph cone of the roots, restricted to the given packages.
+func ruleErrFlowCone(c *eng.Ctx, rule string, roots []string, pkgs []string, floor int) {
+	var rootFns []*eng.FuncInfo
+	for _, r := range roots {
+		if fi := c.Anchor(rule, r); fi != nil {
+			rootFns = append(rootFns, fi)
+		}
+	}
+	if len(rootFns) == 0 {
+		return
+	}
+	decls := coneDecls(c.P, rootFns, pkgs)
+	n := 0
+	for _, fi := range decls {
+		for _, r := range errSitesOf(fi) {
+			if !storageDerived(c.P, fi, r.Site.Call) {
+				continue
+			}
+			n++
+			f := r.Site.Finding
+			if f == nil {
+				c.OK(rule, r.Construct, r.Site.Call.Pos(), "error reaches a return/sink on every non-nil path")
+				continue
+			}
+			if why, ok := errflowExceptions[r.Construct]; ok {
+				c.OK(rule, r.Construct, r.Site.Call.Pos(), "tabled exception: "+why)
+				continue
+			}
+			if f.Kind == "dropped" && f.InDefer && strings.HasSuffix(f.Callee, ".Close") {
+				c.OK(rule, r.Construct, r.Site.Call.Pos(), "deferred Close (accepted idiom: releases a read resource; no state decision depends on it)")
+				continue
+			}
+			c.Bad(rule, r.Construct, r.Site.Call.Pos(), fmt.Sprintf("storage-derived error %s: %s (exit at %s)", f.Kind, f.Detail, c.P.Rel(f.Where)))
+		}
+	}
+	c.Floor(rule, n, floor)
+	c.Notes = append(c.Notes, fmt.Sprintf("%s: cone of %v = %d source functions in %v", rule, roots, len(decls), pkgs))
+}
+
+func coneDecls(p *eng.Program, roots []*eng.FuncInfo, pkgs []string) []*eng.FuncInfo {
+	var fns []*ssa.Function
+	for _, r := range roots {
+		if f := p.SSAFunc(r); f != nil {
+			fns = append(fns, f)
+		}
+	}
+	cone := p.Cone(fns...)
+	var out []*eng.FuncInfo
+	for _, fi := range p.ConeDecls(cone) {
+		if pkgMatch(eng.ShortPkg(fi.Pkg.PkgPath), pkgs) {
+			out = append(out, fi)
+		}
+	}
+	return out
+}
+
+// storageDerived: the call may yield an error that originates in the key-value layer.
+func storageDerived(p *eng.Program, fi *eng.FuncInfo, call *ast.CallExpr) bool {
+	info := fi.Pkg.TypesInfo
+	if cal := eng.Callee(info, call); cal != nil {
+		if eng.IsStorageFunc(cal) {
+			return true
+		}
+		if d := p.FuncOfObj(cal); d != nil {
+			if f := p.SSAFunc(d); f != nil && p.StorageReaching(f) {
+				return true
+			}
+		}
+	}
+	for _, f := range p.CalleesAt(call.Lparen) {
+		if p.StorageReaching(f) {
+			return true
+		}
+		if o, ok := f.Object().(*types.Func); ok && eng.IsStorageFunc(o) {
+			return true
+		}
+	}
+	return false
 }
